@@ -1114,6 +1114,12 @@ def skymask(invvar, andmask, ormask=None, ngrow=2):
     redmonster = sdss_flagval('SPPIXMASK', 'REDMONSTER')
     # brightsky = sdss_flagval('SPPIXMASK', 'BRIGHTSKY')
     if ormask is not None:
+        #
+        # The flag values are numpy.uint64 scalars; with numpy >= 2 these
+        # cannot be combined with the signed integer masks stored in spPlate
+        # files, so compare bits in the type of the flag values.
+        #
+        ormask = ormask.astype(badskychi.dtype)
         badmask = badmask | ((ormask & badskychi) != 0)
         badmask = badmask | ((ormask & redmonster) != 0)
         # badmask = badmask | ((andmask & brightsky) != 0)
